@@ -11,10 +11,11 @@ def run(ctx):
         "default-port decision is `port == DEFAULT_PORTS.get(own scheme)` and `port` falls back to the scheme default only "
         "when no port is written; (PRT3) the authority splitter converts with int(), range-checks and raises ValueError; "
         "(PRT4) wrong type -> TypeError, out of range -> ValueError; (SH5) a port is never tested for truthiness where "
-        "the test controls its use. Integer formatting is the runtime's.")
+        "the test controls its use. (PRT5) no caller of the splitter swallows that ValueError. Integer formatting is the runtime's.")
     port.t10(ctx)
     port.prt1(ctx)
     port.prt2(ctx)
     port.prt3(ctx)
     port.prt4(ctx)
     port.sh5(ctx)
+    port.prt5(ctx)
